@@ -76,6 +76,8 @@ func (w *World) VerifyUnit(fn *ssa.Function, con *Contract) *UnitResult {
 		for _, n := range con.Abstracts {
 			x.abstracted[n] = true
 		}
+		x.cutLoops = con.Cuts
+		x.outerUnroll = con.Outer
 		x.harnessUnroll = con.UnrollTo
 		x.unrollOverride = con.UnrollTo
 		con = nil
